@@ -416,6 +416,46 @@ func runAppendOnly(c *core.Ctx) []core.Obligation {
 				}
 			}
 		}
+		// the destination is never swapped for another buffer that lacks its bytes: where a φ
+		// merges a version of the destination with something else (a fresh make), the prefix must
+		// have been copied into it
+		for _, blk := range fn.Blocks {
+			for _, in := range blk.Instrs {
+				phi, ok := in.(*ssa.Phi)
+				if !ok || !a.v[phi] || !isSliceType(phi.Type()) {
+					continue
+				}
+				for _, e := range phi.Edges {
+					if a.v[e] || isNilConst(e) {
+						continue
+					}
+					copied := false
+					for _, ci := range callsIn(fn) {
+						bi, isB := ci.Common().Value.(*ssa.Builtin)
+						if !isB || bi.Name() != "copy" || len(ci.Common().Args) != 2 {
+							continue
+						}
+						dstArg, srcArg := ci.Common().Args[0], ci.Common().Args[1]
+						root := func(v ssa.Value) ssa.Value {
+							for {
+								sl, ok := v.(*ssa.Slice)
+								if !ok {
+									return v
+								}
+								v = sl.X
+							}
+						}
+						if root(dstArg) == root(e) && a.v[srcArg] {
+							copied = true
+						}
+					}
+					if !copied {
+						any = true
+						b.bad(mk("replace"), c.InstrPos(phi), fmt.Sprintf("%s continues with %s in place of the destination on some path, without copying the destination's bytes into it: everything the caller had in b[:len(b)] comes back as zero bytes (only when the path is taken — a full buffer, a size threshold)", name, describeValue(e)))
+					}
+				}
+			}
+		}
 		// every return hands back the destination (a version of it), never nil or another slice
 		for _, r := range returnsOf(fn) {
 			if len(r.Results) == 0 || !isSliceType(r.Results[0].Type()) {
